@@ -18,6 +18,7 @@ import (
 	"github.com/semihalev/sdns/config"
 	"github.com/semihalev/sdns/internal/dnsname"
 	"github.com/semihalev/sdns/internal/dnsutil"
+	"github.com/semihalev/sdns/internal/verifhook"
 	"github.com/semihalev/sdns/middleware"
 	"github.com/semihalev/zlog/v2"
 )
@@ -538,6 +539,9 @@ func (h *Hostsfile) load() error {
 
 // setupWatcher creates a file watcher for auto-reload.
 func (h *Hostsfile) setupWatcher() error {
+	if !verifhook.Background() {
+		return nil
+	}
 	watcher, err := fsnotify.NewWatcher()
 	if err != nil {
 		return err
